@@ -34,7 +34,7 @@ MANIFEST = {
     "design_ref": "DESIGN.md §4 C10",
 }
 STUBS = []
-ASSUMPTIONS = ["one OS schedule per scenario", "an execute call that has not returned after 20 s never returns"]
+ASSUMPTIONS = ["one OS schedule per scenario", "an execute call that has not returned after 12 s never returns"]
 OUTSIDE = ["interleavings and timing", "keyword names 'payload' / 'flavour' / 'self'"]
 
 FLAV = ("asyncio", "trio", "threading")
@@ -161,8 +161,11 @@ def execute(ctx, flavour, caller, ncalls, fixed_kw=None):
         ctx.require(finished, "every execute call returns or raises (it never blocks forever)", fatal=True)
         still_running = runner.running.is_set() and w.thread.is_alive()
         marks = {f: len(beats[f]) for f in FLAV}
-        time.sleep(0.15)
-        progressed = {f: len(beats[f]) > marks[f] for f in FLAV}
+        t_wait = time.time()
+        progressed = {f: False for f in FLAV}
+        while time.time() - t_wait < 5.0 and not all(progressed.values()):  # generous: a loaded machine is not a violation
+            time.sleep(0.05)
+            progressed = {f: len(beats[f]) > marks[f] for f in FLAV}
         # a further execute still works
         extra = None
         if finished and still_running:
